@@ -2,20 +2,21 @@
 product exploration (library match state x reference derivative)."""
 from ..refschema import EMPTY, RefSchema, SchemaRejected, TooComplex, deriv, first, nullable
 
-BLOCK_NAMES = ["a", "b", "c", "g", "r"]
+BLOCK_NAMES = ["a", "b", "c", "g", "gg", "r"]
 INLINE_NAMES = ["text", "i", "j", "inline"]
 
 
 def probe_spec(expr, extra=None):
     """Schema spec whose node `x` has `expr` as content.  Block alphabet: leaf blocks a, b
-    (group g), c, r (required attribute => not generatable).  Inline alphabet: text, i (leaf),
+    (group g), b, c (group gg), c also in group ggx, r (required attribute => not generatable).  Inline alphabet: text, i (leaf),
     j (required attribute); group inline = text i j."""
     nodes = {
         "doc": {"content": "(x | a | b | c | r)*"},
         "x": {"content": expr},
+        # group names that contain one another: g = {a, b}, gg = {b, c}, ggx = {c} (never named)
         "a": {"group": "g"},
-        "b": {"group": "g"},
-        "c": {"attrs": {"o": {"default": None}}},
+        "b": {"group": "g gg"},
+        "c": {"attrs": {"o": {"default": None}}, "group": "gg ggx"},
         "r": {"attrs": {"q": {}}},
         "text": {"group": "inline"},
         "i": {"inline": True, "group": "inline"},
